@@ -99,7 +99,7 @@ CHECKS["C18"] = {
     "technique": "bounded-exhaustive enumeration of shapes x limits; choice-tree exploration of the real code in nondeterministic mode (deviation-bounded for large limits)",
 }
 CHECKS["C14"] = {
-    "text": "Explicit-state exploration of API histories: every sequence of <=2 operations over an alphabet of 57 concrete operations (compile / apply a compiled query / find via an environment / module-level find / register, re-register, remove or re-sign a function / change the integer range / mutate or replace a document between two applications / many rejected compilations / invalid patterns after valid ones / an environment with very large limits) on 5 environments, 14 queries and 5 documents, and every sequence of 3 over a reduced 15-operation alphabet (<=3 full and 4 reduced in thorough), plus one chained history of 2 000 steps. Every history runs on a freshly imported package (sys.modules purge, regex cache purge) and is compared step by step with a model (per-environment registry + R3); every document is snapshotted (deep copy + identity of every container) around each operation; a change of the interpreter's recursion limit is reported together with a query whose outcome it changes. Function f1 has a different implementation per environment so leakage shows as behaviour.",
+    "text": "Explicit-state exploration of API histories: every sequence of <=2 operations over an alphabet of 63 concrete operations (compile / apply a compiled query / find via an environment / module-level find / register, re-register, remove or re-sign a function / change the integer range / mutate or replace a document between two applications / many rejected compilations / invalid patterns after valid ones / an environment with very large limits) on 5 environments, 15 queries and 6 documents (one built from subclasses of dict, list, str), and every sequence of 3 over a reduced 15-operation alphabet (<=3 full and 4 reduced in thorough), plus one chained history of 2 000 steps. Every history runs on a freshly imported package (sys.modules purge, regex cache purge) and is compared step by step with a model (per-environment registry + R3); every document is snapshotted (deep copy + identity of every container) around each operation; a change of the interpreter's recursion limit is reported together with a query whose outcome it changes. Function f1 has a different implementation per environment so leakage shows as behaviour.",
     "ref": "DESIGN.md section 5, C14",
     "note": "Histories are never merged (hidden state is what is hunted). Bounded by history length and by the operation alphabet.",
     "technique": "explicit-state enumeration of operation histories on the real package (fresh import per history) against a reference model",
@@ -111,7 +111,7 @@ CHECKS["C15"] = {
     "technique": "bounded-exhaustive differential enumeration over queries x documents x entry points",
 }
 CHECKS["C16"] = {
-    "text": "Iterator part: 10 queries x 7 sharing configurations (+ one configuration with an environment limit far above the interpreter's on a document nested 3 300 levels) (same compiled query / two compilations / two environments; same, different or equal-under-Python (1 vs true) documents; 2-3 live iterators): ALL interleavings of the first 5 (k=2) / 3 (k=3) next() calls of each iterator (7 / 4 in thorough), each schedule replayed on fresh iterators and compared item by item with the solitary run, plus every single close()/drop point for k=2. Thread part: 17 two-thread harnesses on shared query/environment objects run on real threads under a cooperative scheduler (sys.settrace line events in package code are scheduling points, one baton, cooperative Lock/RLock): all schedules with <=1 preemption (quick, ~29 000 executions) / <=2 (thorough, capped per harness); each thread must observe its sequential result and the shared objects must be intact afterwards. Compile-only part: two threads compile on one shared environment (same text already compiled; thorough also two texts, a fresh environment, a filter text): ALL schedules with <=2 preemptions at line granularity (56 914 in quick), sliced over 16 shards, and at BYTECODE granularity (a scheduling point before every instruction) with <=1 preemption for the first two harnesses in quick; thorough: <=2 preemptions for the first, <=1 for all four.",
+    "text": "Iterator part: 10 queries x 7 sharing configurations (+ one configuration with an environment limit far above the interpreter's on a document nested 3 300 levels) (same compiled query / two compilations / two environments; same, different or equal-under-Python (1 vs true) documents; 2-3 live iterators): ALL interleavings of the first 5 (k=2) / 3 (k=3) next() calls of each iterator (7 / 4 in thorough), each schedule replayed on fresh iterators and compared item by item with the solitary run, plus every single close()/drop point for k=2. Thread part: 18 two-thread harnesses (one with an iterator of the shared environment suspended half-way in the main thread) on shared query/environment objects run on real threads under a cooperative scheduler (sys.settrace line events in package code are scheduling points, one baton, cooperative Lock/RLock): all schedules with <=1 preemption (quick, ~29 000 executions) / <=2 (thorough, capped per harness); each thread must observe its sequential result and the shared objects must be intact afterwards. Compile-only part: two threads compile on one shared environment (same text already compiled; thorough also two texts, a fresh environment, a filter text): ALL schedules with <=2 preemptions at line granularity (56 914 in quick), sliced over 16 shards, and at BYTECODE granularity (a scheduling point before every instruction) with <=1 preemption for the first two harnesses in quick; thorough: <=2 preemptions for the first, <=1 for all four.",
     "ref": "DESIGN.md section 5, C16",
     "note": "Thread schedules at source-line granularity under the GIL; interleavings inside one line or inside the C regex engine are not covered. Preemption bound completed is reported per harness.",
     "technique": "stateless exploration of schedules of the real code: all next() interleavings; controlled-scheduler thread exploration with iterative preemption bounding",
